@@ -47,19 +47,48 @@
                            element in every other copy - keeps what Begin and
                            Audit demand of it: the contents it was seen with.
 
+   Place(mem, who, frozen, regs)
+                           OWNERSHIP OF BACKING ARRAYS.  Results are independent
+                           values: an update that ApplyBlock / RevertBlock
+                           returned (who = that update, frozen: nobody is ever
+                           meant to write it again) and every cell a holder keeps
+                           of an element (a Copy() of an element of an update's
+                           diffs, kept up to date over a HISTORY of updates with
+                           the updates' own UpdateElementProof - elements the
+                           update itself spent, revised or resolved included)
+                           live in memory of their own.  regs is the set of
+                           stretches [lo, hi) of addresses that back mem, up to
+                           capacity, after it was returned (publish), copied
+                           (track) or refreshed (every Mutate is followed by the
+                           Place of the refreshed cell: the refresh may have
+                           moved it).  Allowed iff no stretch overlaps a stretch
+                           of another mem; stretches of one frozen owner may
+                           overlap each other (an update may share memory with
+                           itself, a holder's cells are written one by one and
+                           may not).  A refresh that hands the holder the
+                           update's own array leaves the same CONTENT as an honest
+                           one - no digest tells them apart at that moment; the
+                           damage is done by the next refresh, which writes the
+                           update (or another holder's cell) in place.
+   Look(mem, d)            a returned result is looked at again, any time later
+                           (after later blocks were applied, after holders were
+                           refreshed with it and with later updates): it has the
+                           contents it was returned with.
+
    There is no ordering constraint between calls: every interleaving of Begin
    and End events is a behaviour, so the specification is insensitive to the
    schedule; what it fixes is that results are a function of the key and that
    memory never changes.
 
    This module holds the acceptance predicates and state updates as operators
-   over a record st = [memo, open, seen]; PurityMC explores them against
+   over a record st = [memo, open, seen, reg]; PurityMC (calls, Mutate) and
+   OwnershipMC (Place, Look over histories of updates) explore them against
    honest and dishonest implementations, PurityTrace applies them to a log
    recorded from the real code.                                              *)
 EXTENDS Integers, Sequences, FiniteSets, TLC
 
 Empty == [x \in {} |-> TRUE]
-Fresh0 == [memo |-> Empty, open |-> Empty, seen |-> Empty]
+Fresh0 == [memo |-> Empty, open |-> Empty, seen |-> Empty, reg |-> Empty]
 
 \* ---- Begin ---------------------------------------------------------------
 BeginIdFresh(st, e) == e.id \notin DOMAIN st.open
@@ -97,6 +126,20 @@ MutOK(st, e) == MutCellSame(st, e) /\ MutSameResult(st, e)
 AfterMut(st, e) ==
   [st EXCEPT !.seen = (e.mem :> e.d1) @@ @,
              !.memo = IF e.key \in DOMAIN @ THEN @ ELSE (e.key :> e.res) @@ @]
+
+\* ---- Place / Look (ownership of backing arrays) ----------------------------
+\* e = [mem, who, frozen, regs];  st.reg[m] = [who, frozen, regs];  a stretch is <<lo, hi>>
+Overlap(r, s) == r[1] < r[2] /\ s[1] < s[2] /\ r[1] < s[2] /\ s[1] < r[2]
+SharesWith(e, o) == \E r \in e.regs, s \in o.regs : Overlap(r, s)
+SelfDisjoint(e)  == e.frozen \/ \A r, s \in e.regs : r = s \/ ~Overlap(r, s)
+Sharers(st, e)   == {m \in DOMAIN st.reg \ {e.mem} :
+                       /\ ~(e.frozen /\ st.reg[m].frozen /\ st.reg[m].who = e.who)   \* one update, several cells
+                       /\ SharesWith(e, st.reg[m])}
+PlaceOK(st, e)    == SelfDisjoint(e) /\ Sharers(st, e) = {}
+AfterPlace(st, e) == [st EXCEPT !.reg = (e.mem :> [who |-> e.who, frozen |-> e.frozen, regs |-> e.regs]) @@ @]
+\* e = [mem, d]
+LookOK(st, e)    == e.mem \in DOMAIN st.seen => st.seen[e.mem] = e.d
+AfterLook(st, e) == [st EXCEPT !.seen = IF e.mem \in DOMAIN @ THEN @ ELSE (e.mem :> e.d) @@ @]
 
 \* quiescent: every call that began has ended
 Quiet(st) == DOMAIN st.open = {}
